@@ -44,6 +44,10 @@ SCENARIOS = [
     {"name": "module_tree", "files": {"lib.rs": "mod a;\nmod b;\nfn  x(){}\n", "a.rs": "pub fn  a(){}\nmod c;\n", "b.rs": "pub fn b() {}\n", "a/c.rs": "pub  fn c() {}\n"},
      "roots": ["lib.rs"], "config": [], "auto": True},
     {"name": "two_roots", "files": {"x.rs": "fn  x(){}\n", "y.rs": "fn y() {}\n"}, "roots": ["x.rs", "y.rs"], "config": [], "auto": True},
+    # files without any code: blank lines / white space only, nothing at all; a placeholder module of a formatted crate
+    {"name": "blank_lines_only", "files": {"a.rs": "\n\n"}, "roots": ["a.rs"], "config": [], "auto": True},
+    {"name": "spaces_only", "files": {"a.rs": "   \n"}, "roots": ["a.rs"], "config": [], "auto": True},
+    {"name": "blank_placeholder_module", "files": {"lib.rs": "mod placeholder;\nfn x() {}\n", "placeholder.rs": "\n\n\n"}, "roots": ["lib.rs"], "config": [], "auto": True},
     # one root whose files are emitted in path order: the misformatted one is not the last / is the first one emitted
     {"name": "tree_last_emitted_clean", "files": {"lib.rs": "mod zed;\nfn  x(){}\n", "zed.rs": "pub fn z() {}\n"}, "roots": ["lib.rs"], "config": [], "auto": True},
     {"name": "tree_only_middle_dirty", "files": {"lib.rs": "mod aaa;\nmod kkk;\nmod zzz;\n", "aaa.rs": "pub fn a() {}\n", "kkk.rs": "pub  fn k( ) {}\n", "zzz.rs": "pub fn z() {}\n"},
